@@ -106,6 +106,8 @@ func c01Show(o py.Object) string {
 		return "False"
 	case py.Float:
 		return "F"
+	case py.Bytes:
+		return "b'" + string(x) + "'"
 	case py.Tuple:
 		parts := make([]string, len(x))
 		for i, e := range x {
